@@ -88,7 +88,11 @@ func setup(c *fw.Ctx) {
 		case *api.Pin:
 			switch in := call.In.(type) {
 			case *api.PinPath:
-				parts := strings.Split(strings.TrimPrefix(in.Path, "/ipfs/"), "/")
+				rest := in.Path
+				for _, ns := range []string{"/ipfs/", "/ipns/", "/ipld/"} {
+					rest = strings.TrimPrefix(rest, ns)
+				}
+				parts := strings.Split(rest, "/")
 				ci, err := cid.Decode(parts[0])
 				if err != nil {
 					return fmt.Errorf("cannot resolve %s", in.Path)
@@ -270,6 +274,11 @@ func hijacked(c *fw.Ctx, e *env, r *fw.Rand) {
 		oddBool := false
 		switch route {
 		case "pin/add", "pin/rm":
+			if argValid && r.Chance(1, 4) {
+				// the other namespaces: a name to be resolved, or an IPLD path - not the same request as /ipfs/<the same text>
+				arg = r.Pick("/ipns/", "/ipld/") + target.String() + r.Pick("", "", "/", sub)
+				sub = "ns"
+			}
 			if r.Chance(1, 3) && argValid && sub == "" {
 				style = "slash"
 				p += "/" + url.PathEscape(strings.TrimPrefix(arg, "/ipfs/"))
